@@ -14,6 +14,10 @@ use elements::{AssetId, BlockHash, LockTime, OutPoint, SchnorrSighashType, Scrip
 pub fn btc_pk(i: u64) -> elements::bitcoin::PublicKey {
     elements::bitcoin::PublicKey::new(zkp::PublicKey::from_secret_key(gen::secp(), &gen::sk(2000 + i)))
 }
+/// the same key family in the uncompressed (65-byte) form
+pub fn btc_pk_uncompressed(i: u64) -> elements::bitcoin::PublicKey {
+    elements::bitcoin::PublicKey::new_uncompressed(zkp::PublicKey::from_secret_key(gen::secp(), &gen::sk(2000 + i)))
+}
 pub fn xonly(i: u64) -> zkp::XOnlyPublicKey {
     zkp::PublicKey::from_secret_key(gen::secp(), &gen::sk(2100 + i)).x_only_public_key().0
 }
@@ -113,6 +117,12 @@ pub fn input_fields() -> Vec<Field<Input>> {
         f("partial_sigs", true, |x: &mut Input, v| {
             x.partial_sigs.insert(btc_pk(v), vec![0x30, 0x44, v as u8, 1]);
         }),
+        f("partial_sigs(uncompressed key)", true, |x: &mut Input, v| {
+            x.partial_sigs.insert(btc_pk_uncompressed(v), vec![0x30, 0x45, v as u8]);
+        }),
+        f("bip32_derivation(uncompressed key)", true, |x: &mut Input, v| {
+            x.bip32_derivation.insert(btc_pk_uncompressed(10 + v), key_source(v + 2));
+        }),
         f("sighash_type", false, |x: &mut Input, v| x.sighash_type = Some(PsbtSighashType::from_u32([1u32, 0x83][v as usize % 2]))),
         f("redeem_script", false, |x: &mut Input, v| x.redeem_script = Some(Script::from(vec![0x51, v as u8]))),
         f("witness_script", false, |x: &mut Input, v| x.witness_script = Some(Script::from(vec![0x52, v as u8, 0x75]))),
@@ -197,7 +207,10 @@ pub fn output_fields() -> Vec<Field<Output>> {
         }),
         f("value_rangeproof", false, |x: &mut Output, v| x.value_rangeproof = Some(rp(v))),
         f("asset_surjection_proof", false, |x: &mut Output, v| x.asset_surjection_proof = Some(sp(v))),
-        f("ecdh_pubkey", false, |x: &mut Output, v| x.ecdh_pubkey = Some(btc_pk(60 + v))),
+        f("ecdh_pubkey", false, |x: &mut Output, v| x.ecdh_pubkey = Some(if v % 2 == 0 { btc_pk(60 + v) } else { btc_pk_uncompressed(60 + v) })),
+        f("bip32_derivation(uncompressed key)", true, |x: &mut Output, v| {
+            x.bip32_derivation.insert(btc_pk_uncompressed(30 + v), key_source(v + 4));
+        }),
         f("blind_value_proof", false, |x: &mut Output, v| x.blind_value_proof = Some(rp(v + 1))),
         f("blind_asset_proof", false, |x: &mut Output, v| x.blind_asset_proof = Some(sp(v + 1))),
         f("proprietary", true, |x: &mut Output, v| {
